@@ -362,7 +362,13 @@ func (h *handler) handleMessage(ctx context.Context, msg hwebsocket.Msg, respond
 }
 
 func (h *handler) disconnect(err error) {
-	h.disconnectChan <- err
+	// The main loop is the only reader of disconnectChan and also calls
+	// disconnect itself: a blocking send on a full channel would wedge it for
+	// good. One pending error is enough to end the connection.
+	select {
+	case h.disconnectChan <- err:
+	default:
+	}
 }
 
 func (h *handler) handleDisconnect(err error) {
